@@ -193,6 +193,8 @@ PROGRAMMES = {
     "poly3": ("polynomial", [318.15, 2.2, -0.11, 0.0013]),
     "log": ("logarithmic", [140.0, 10.8, 0.12]),  # T = c0*ln(c1 + c2*t)
     "log3": ("logarithmic", [150.0, 8.9, 0.21, -0.003]),
+    "poly_slow": ("polynomial", [333.15, 0.002]),  # 2 mK per hour: a non-isothermal run whose temperatures are all "close"
+    "cold_hold": ("polynomial", [313.15, 1e-3]),  # far below a hot stated initial temperature from the first programme point on
     "poly_cross0": ("polynomial", [300.0, -400.0]),  # crosses 0 K within the first step(s)
     "log_t0": ("logarithmic", [40.0, 0.0, 5962.0]),  # -inf at t = 0, about 320 K at t = 0.5 h: only the STATED initial temperature is valid at step 0
 }
